@@ -45,7 +45,13 @@ pub fn check_case(ctx: &Ctx, st: &mut Stats, c: &Case, tag: &str) {
     let _ = std::fs::create_dir_all(&dir);
     let output = dir.join(super::common::hostile_file_name(c.puzzle.len(), "out.txt"));
     let plan = super::common::plan_input(c.io, &dir, "puzzle.txt", c.puzzle.as_bytes());
-    let mut args = vec!["-r".to_string(), c.root.to_string()];
+    let mut args: Vec<String> = match c.puzzle.len() % 5 {
+        0 => vec![format!("-r{}", c.root)],
+        1 => vec![format!("-r={}", c.root)],
+        2 => vec![format!("--root={}", c.root)],
+        3 => vec!["--root".to_string(), c.root.to_string()],
+        _ => vec!["-r".to_string(), c.root.to_string()],
+    };
     if let Some(p) = &plan.path_arg {
         args.push(p.clone());
     }
